@@ -21,7 +21,8 @@ Definition ghost0 : ghost := {| gh_win := fun _ => false; gh_drop := fun _ => fa
 Definition gstep (w : wstate) (e : wev) (g : ghost) : ghost :=
   match e with
   | EClear => {| gh_win := fun s => in_sub_window (w_spc w s); gh_drop := fun _ => false |}
-  | ERcSend false => {| gh_win := gh_win g; gh_drop := fun s => gh_drop g s || nmem s (todo (w_hpc w)) |}
+  | ERcSend false | ERcBuildFail _ =>
+      {| gh_win := gh_win g; gh_drop := fun s => gh_drop g s || nmem s (todo (w_hpc w)) |}
   | _ => g
   end.
 Fixpoint grun (evs : list wev) (w : wstate) (g : ghost) : ghost :=
@@ -243,6 +244,7 @@ Proof.
   - rewrite todo_match. try rewrite E in X. cbn [todo] in X.
     eapply invX_ext; [|eapply X_rcsend_ok; exact X]. intros; reflexivity.
   - rewrite E. eapply X_rcsend_fail. exact X.
+  - rewrite E. eapply X_rcsend_fail. exact X.
 Qed.
 
 Lemma invXw_run evs : forall w g w', invXw w g -> wrun evs w = Some w' -> invXw w' (grun evs w g).
@@ -314,7 +316,8 @@ Proof.
   induction evs as [|e evs IH]; intros w g Hn G s; cbn; [auto|].
   inversion Hn; subst. destruct (wstep w e) as [w1|]; [|auto].
   apply IH; [assumption|]. intros s'. destruct e; cbn [gstep]; auto.
-  destruct ok; [auto|congruence].
+  - destruct ok; [auto|]. match goal with Hg : rc_gives_up _ = false |- _ => cbn in Hg; discriminate Hg end.
+  - match goal with Hg : rc_gives_up _ = false |- _ => cbn in Hg; discriminate Hg end.
 Qed.
 
 Lemma no_abort_not_dropped evs : no_rc_abort evs -> forall s, dropped_since_clear evs s = false.
